@@ -266,3 +266,106 @@ silent("c03-s-key-order", "C03", INTERP,
 silent("c03-s-explicit-miss-branch", "C03", INTERP,
        "        value = self.cache.get(key)\n        if value is None:\n            self.cache[key] = value = self.base_interpretation.interpret(cls, *args)\n        return value",
        "        value = self.cache.get(key)\n        if value is not None:\n            return value\n        value = self.base_interpretation.interpret(cls, *args)\n        self.cache[key] = value\n        return value")
+
+# ----------------------------------------------------------------------------------------------------------------- C15
+BUILTIN = "funsor/ops/builtin.py"
+CNF = "funsor/cnf.py"
+OPTIMIZER = "funsor/optimizer.py"
+fire("c15-unit-and-false", "C15", BUILTIN, "UNITS[and_] = True", "UNITS[and_] = False", "R15.1", "and_")
+fire("c15-unit-max-plus-inf", "C15", BUILTIN, "UNITS[max] = -math.inf", "UNITS[max] = math.inf", "R15.1", "max")
+fire("c15-unit-mul-zero", "C15", BUILTIN, "UNITS[mul] = 1.0", "UNITS[mul] = 0.0", "R15.1", "mul")
+fire("c15-unit-logaddexp-zero", "C15", ARRAY, "UNITS[logaddexp] = -math.inf", "UNITS[logaddexp] = 0.0", "R15.1", "logaddexp")
+fire("c15-distributive-reversed-pair", "C15", BUILTIN, "DISTRIBUTIVE_OPS.add((max, add))", "DISTRIBUTIVE_OPS.add((add, max))", "R15.2")
+fire("c15-distributive-add-add", "C15", BUILTIN, "DISTRIBUTIVE_OPS.add((add, mul))", "DISTRIBUTIVE_OPS.add((add, mul))\nDISTRIBUTIVE_OPS.add((add, add))", "R15.2")
+fire("c15-distributive-and-or-wrong-carrier", "C15", BUILTIN, "DISTRIBUTIVE_OPS.add((or_, and_))", "DISTRIBUTIVE_OPS.add((or_, xor))", "R15.2")
+fire("c15-inverse-mul-is-sub", "C15", BUILTIN, "BINARY_INVERSES[mul] = truediv", "BINARY_INVERSES[mul] = sub", "R15.3", "mul")
+fire("c15-safe-inverse-swapped", "C15", BUILTIN, "SAFE_BINARY_INVERSES[add] = safesub", "SAFE_BINARY_INVERSES[add] = safediv", "R15.3", "add")
+fire("c15-unary-inverse-add-reciprocal", "C15", BUILTIN, "UNARY_INVERSES[add] = neg", "UNARY_INVERSES[add] = reciprocal", "R15.3", "add")
+fire("c15-power-of-mul-is-mul", "C15", BUILTIN, "PRODUCT_TO_POWER[mul] = pow", "PRODUCT_TO_POWER[mul] = mul", "R15.3", "mul")
+fire("c15-reduce-table-min-amax", "C15", TENSOR, "    ops.min: ops.amin,", "    ops.min: ops.amax,", "R15.4", "min")
+fire("c15-reduce-table-or-all", "C15", TENSOR, "    ops.or_: ops.any,", "    ops.or_: ops.all,", "R15.4")
+silent("c15-s-unit-int-spelling", "C15", BUILTIN, "UNITS[mul] = 1.0", "UNITS[mul] = 1")
+silent("c15-s-unit-float-inf-spelling", "C15", BUILTIN, "UNITS[max] = -math.inf", "UNITS[max] = -float(\"inf\")")
+silent("c15-s-table-order", "C15", BUILTIN, "UNITS[mul] = 1.0\nUNITS[add] = 0.0", "UNITS[add] = 0.0\nUNITS[mul] = 1.0")
+silent("c15-s-extra-true-distributive-pair", "C15", BUILTIN, "DISTRIBUTIVE_OPS.add((or_, and_))", "DISTRIBUTIVE_OPS.add((or_, and_))\nDISTRIBUTIVE_OPS.add((and_, or_))")
+
+# ----------------------------------------------------------------------------------------------------------------- C01
+fire("c01-rsub-unswapped", "C01", TERMS,
+     "    def __rsub__(self, other):\n        return Binary(ops.sub, to_funsor(other), self)",
+     "    def __rsub__(self, other):\n        return Binary(ops.sub, self, to_funsor(other))", "R01.1", "__rsub__")
+fire("c01-rpow-unswapped", "C01", TERMS,
+     "    def __rpow__(self, other):\n        return Binary(ops.pow, to_funsor(other), self)",
+     "    def __rpow__(self, other):\n        return Binary(ops.pow, self, to_funsor(other))", "R01.1", "__rpow__")
+fire("c01-floordiv-builds-truediv", "C01", TERMS,
+     "    def __floordiv__(self, other):\n        return Binary(ops.floordiv, self, to_funsor(other))",
+     "    def __floordiv__(self, other):\n        return Binary(ops.truediv, self, to_funsor(other))", "R01.1", "__floordiv__")
+fire("c01-lt-builds-le", "C01", TERMS,
+     "    def __lt__(self, other):\n        return Binary(ops.lt, self, to_funsor(other))",
+     "    def __lt__(self, other):\n        return Binary(ops.le, self, to_funsor(other))", "R01.1", "__lt__")
+fire("c01-syntax-floordiv-row", "C01", "funsor/syntax.py", "    (\"//\", ops.floordiv, ast.FloorDiv),", "    (\"//\", ops.truediv, ast.FloorDiv),", "R01.3")
+fire("c01-syntax-prefix-neg-row", "C01", "funsor/syntax.py", "    (\"-\", ops.neg, ast.USub),", "    (\"-\", ops.neg, ast.UAdd),", "R01.3")
+fire("c01-missing-var-power-distributive-partner", "C01", TERMS,
+     "        if op in ops.PRODUCT_TO_POWER:\n            arg = ops.PRODUCT_TO_POWER[op](arg, multiplicity)\n        elif isinstance(op, ops.LogaddexpOp):\n            arg = ops.add(arg, math.log(multiplicity))",
+     "        if op in ops.PRODUCT_TO_POWER:\n            arg = ops.PRODUCT_TO_POWER[op](arg, multiplicity)\n        elif isinstance(op, ops.LogaddexpOp):\n            arg = ops.add(arg, multiplicity)",
+     "R01.4", "_reduce_unrelated_vars")
+fire("c01-missing-var-max-compensated", "C01", TERMS,
+     "        elif op not in (ops.max, ops.min, ops.and_, ops.or_):  # not idempotent",
+     "        elif op in (ops.max, ops.min):\n            arg = ops.mul(arg, multiplicity)\n        elif op not in (ops.and_, ops.or_):  # not idempotent",
+     "R01.4", "_reduce_unrelated_vars")
+fire("c01-missing-var-no-compensation-add", "C01", TERMS,
+     "        if op in ops.PRODUCT_TO_POWER:\n            arg = ops.PRODUCT_TO_POWER[op](arg, multiplicity)\n        elif isinstance(op, ops.LogaddexpOp):",
+     "        if op is ops.mul:\n            arg = ops.PRODUCT_TO_POWER[op](arg, multiplicity)\n        elif op is ops.add:\n            pass\n        elif isinstance(op, ops.LogaddexpOp):",
+     "R01.4", "_reduce_unrelated_vars")
+silent("c01-s-radd-swapped", "C01", TERMS,
+       "    def __radd__(self, other):\n        return Binary(ops.add, self, to_funsor(other))",
+       "    def __radd__(self, other):\n        return Binary(ops.add, to_funsor(other), self)")
+silent("c01-s-missing-var-explicit-branches", "C01", TERMS,
+       "        if op in ops.PRODUCT_TO_POWER:\n            arg = ops.PRODUCT_TO_POWER[op](arg, multiplicity)\n",
+       "        if op is ops.add:\n            arg = ops.mul(arg, multiplicity)\n        elif op is ops.mul:\n            arg = ops.pow(arg, multiplicity)\n")
+
+# ----------------------------------------------------------------------------------------------------------------- C02
+fire("c02-unit-filter-uses-red-op", "C02", CNF,
+     "            if not (isinstance(t, Number) and t.data == ops.UNITS[bin_op])",
+     "            if not (isinstance(t, Number) and t.data == ops.UNITS[red_op])", "R02.1")
+fire("c02-unit-filter-may-drop-everything", "C02", CNF,
+     "        if not new_terms:  # everything was a unit\n            new_terms = (terms[0],)\n", "", "R02.1")
+fire("c02-subtract-via-reciprocal", "C02", CNF,
+     "def binary_subtract(op, lhs, rhs):\n    return lhs + -rhs", "def binary_subtract(op, lhs, rhs):\n    return lhs + Unary(ops.reciprocal, rhs)", "R02.2", "binary_subtract")
+fire("c02-divide-via-neg", "C02", CNF,
+     "    return lhs * Unary(ops.reciprocal, rhs)", "    return lhs * Unary(ops.neg, rhs)", "R02.2", "binary_divide")
+fire("c02-involution-exp-exp", "C02", CNF,
+     "@normalize.register(Unary, ops.ExpOp, Unary[ops.LogOp, Funsor])", "@normalize.register(Unary, ops.ExpOp, Unary[ops.ExpOp, Funsor])", "R02.2", "unary_log_exp")
+fire("c02-unary-contract-neg-over-mul", "C02", CNF,
+     "@normalize.register(Unary, ops.NegOp, Contraction[NullOp, ops.AddOp, frozenset, tuple])",
+     "@normalize.register(Unary, ops.NegOp, Contraction[NullOp, ops.MulOp, frozenset, tuple])", "R02.2", "unary_contract")
+fire("c02-unfold-distribute-guard-dropped", "C02", OPTIMIZER,
+     "        if v.red_op is ops.null and (v.bin_op, bin_op) in DISTRIBUTIVE_OPS:", "        if v.red_op is ops.null:", "R02.3", "unfold_contraction_generic_tuple")
+fire("c02-unfold-distribute-guard-reversed", "C02", OPTIMIZER,
+     "        if v.red_op is ops.null and (v.bin_op, bin_op) in DISTRIBUTIVE_OPS:", "        if v.red_op is ops.null and (bin_op, v.bin_op) in DISTRIBUTIVE_OPS:", "R02.3", "unfold_contraction_generic_tuple")
+fire("c02-unfold-pull-reduction-guard-dropped", "C02", OPTIMIZER,
+     "        if red_op in (v.red_op, ops.null) and (v.red_op, bin_op) in DISTRIBUTIVE_OPS:", "        if red_op in (v.red_op, ops.null):", "R02.3", "unfold_contraction_generic_tuple")
+silent("c02-s-optimizer-own-pair-guard-dropped", "C02", OPTIMIZER,  # own (red_op, bin_op): Contraction's precondition / supported-semiring premise
+       "    if (red_op, bin_op) not in DISTRIBUTIVE_OPS:\n        return None\n\n    # build opt_einsum optimizer IR", "    # build opt_einsum optimizer IR")
+fire("c02-scatter-seed-wrong-op", "C02", TENSOR,
+     "    destin = ops.new_full(source.data, shape, ops.UNITS[op])", "    destin = ops.new_full(source.data, shape, ops.UNITS[ops.add])", "R02.5")
+fire("c02-sum-product-seed-sum-op", "C02", "funsor/sum_product.py",
+     "    return reduce(prod_op, factors, Number(UNITS[prod_op]))", "    return reduce(prod_op, factors, Number(UNITS[sum_op]))", "R02.5")
+silent("c02-s-unit-filter-local-alias", "C02", CNF,
+       "        new_terms = tuple(\n            t\n            for t in terms\n            if not (isinstance(t, Number) and t.data == ops.UNITS[bin_op])\n        )",
+       "        unit = ops.UNITS[bin_op]\n        new_terms = tuple(\n            t for t in terms if not (isinstance(t, Number) and t.data == unit)\n        )")
+silent("c02-s-subtract-explicit-unary", "C02", CNF,
+       "def binary_subtract(op, lhs, rhs):\n    return lhs + -rhs", "def binary_subtract(op, lhs, rhs):\n    return Binary(ops.add, lhs, Unary(ops.neg, rhs))")
+
+# ----------------------------------------------------------------------------------------------------------------- C08
+fire("c08-unfold-distribute-guard-dropped", "C08", OPTIMIZER,
+     "        if v.red_op is ops.null and (v.bin_op, bin_op) in DISTRIBUTIVE_OPS:", "        if v.red_op is ops.null:", "R08.2", "unfold_contraction_generic_tuple")
+silent("c08-s-optimizer-guard-reversed-pair", "C08", OPTIMIZER,  # the optimizer then always declines: slower, same value
+       "    if (red_op, bin_op) not in DISTRIBUTIVE_OPS:\n        return None\n\n    # build opt_einsum optimizer IR",
+       "    if (bin_op, red_op) not in DISTRIBUTIVE_OPS:\n        return None\n\n    # build opt_einsum optimizer IR")
+fire("c08-apply-optimizer-layers-over-eager", "C08", OPTIMIZER,
+     "    with PrioritizedInterpretation(optimize_base, get_interpretation()):", "    with optimize:", "R08.4")
+fire("c08-missing-var-logaddexp", "C08", TERMS,
+     "            arg = ops.add(arg, math.log(multiplicity))", "            arg = ops.add(arg, multiplicity)", "R08.1", "_reduce_unrelated_vars")
+silent("c08-s-guard-positive-form", "C08", OPTIMIZER,
+       "    if (red_op, bin_op) not in DISTRIBUTIVE_OPS:\n        return None\n\n    # build opt_einsum optimizer IR",
+       "    distributes = (red_op, bin_op) in DISTRIBUTIVE_OPS\n    if not distributes:\n        return None\n\n    # build opt_einsum optimizer IR")
